@@ -1,6 +1,6 @@
 (* Witness executions (evaluated with the executable SHA-256) on which the faithful model violates
    the full statements; each is replayed on the real store by harness/c02 (directed scripts). *)
-From V Require Import Hist.Machine Hist.Lemmas Merkle.Sha256.
+From V Require Import Hist.Machine Hist.Lemmas Hist.Aht Merkle.Sha256.
 Open Scope N_scope.
 
 Definition Hs := sha256.
@@ -14,10 +14,6 @@ Definition wtx (k v ts : N) : txspec :=
      p_precond := None; p_cancel := false |}.
 (* one commit call of client c: value write + critical section *)
 Definition wpre (c k v ts : N) : list op := [OBegin c (wtx k v ts) None false; OLocked c zeros32].
-
-(* the Alh values of the committed transactions 1..n as a reader gets them *)
-Definition alhs (s : state) (n : N) : list bytes :=
-  map (fun k => match read_tx s k with Ok r => r_alh r | _ => [] end) (ids_upto n).
 
 (* (1) Discard + Precommit + reopen: the discarded tx A is reloaded from the tx log as tx 3 while the
    AHT keeps the leaf of its replacement B; tx 4 then embeds a root that is NOT the root over the
